@@ -479,9 +479,10 @@ def regenerate(ctx):
         post_c15.main(os.path.join(C.SRC, "post.py"), os.path.join(C.COQ, "gen", "PostC15.v"))
         return True
     except Exception as e:  # noqa: BLE001 - fail closed on anything the translator trips over
-        ctx.fail("translator gen/post_c15.py no longer recognises Deltas/Stack in post.py: %s: %s" % (type(e).__name__, e),
-                 dict(correspondence="gen/post_c15.py -> coq/gen/PostC15.v", error=str(e)), kind="tie", no_input=True)
-        return False
+        if not C.tie_fallback(ctx, "translator gen/post_c15.py no longer recognises Deltas/Stack in post.py: %s: %s" % (type(e).__name__, e),
+                 dict(correspondence="gen/post_c15.py -> coq/gen/PostC15.v", error=str(e)), kind="tie", no_input=True):
+            return False
+        return True
 
 
 def nontrivial(case, res):
